@@ -209,6 +209,37 @@ pub fn run_c10(ctx: &mut Ctx) {
     ctx.extra.insert("floors".into(), json!({"step:returned-error": 1000, "step:returned-ok": 10000}));
 }
 
+/// Small C10 workload for the UB interpreter: random histories in lock step with the model (no
+/// likely-subtags data: parsing 300 KB of JSON inside Miri would dominate; maximize/minimize steps
+/// are executed - they reach the unsafe table lookups - and judged on bool/variants/re-parse only).
+pub fn run_c10_miri(ctx: &mut Ctx) {
+    let n = if ctx.quick() { 2u64 } else { 6 };
+    let mut r = Rng::new(mix(&[ctx.seed, ctx.shard as u64, 0xC10A]));
+    for _ in 0..n {
+        ctx.rng_state = Some(r.state());
+        let start = *r.pick(model::START_VALUES);
+        let len = 12 + r.below(14);
+        let ops: Vec<Op> = (0..len).map(|_| model::random_op(&mut r)).collect();
+        let Ok(mut l) = start.parse::<Locale>() else { continue };
+        let mut m = obs_loc(&l);
+        ctx.count("random_histories");
+        for (i, op) in ops.iter().enumerate() {
+            let (ret, fails) = model::step(&mut l, &mut m, op, None);
+            ctx.evals += 1;
+            ctx.sig(SigH::new(10).u(kind_hash(op)).u(ret.kind_id()).u(shape_sig(&m)).fin());
+            match ret {
+                model::Ret::Err => ctx.count("step:returned-error"),
+                _ => ctx.count("step:returned-ok"),
+            }
+            if let Some(f) = fails.first() {
+                report_history(ctx, start, &ops[..=i], f, None);
+                break;
+            }
+        }
+    }
+    ctx.rng_state = None;
+}
+
 // ------------------------------------------------------------------ value manufacture (C04, C05, C12, C17, C19)
 
 /// A Locale reached by one of several routes of the safe API, together with a description.
